@@ -1085,8 +1085,12 @@ bool evaluate_impl(const void *context, const GraphView &graph,
   // per-cycle setup (next_scheduled accumulation / push-source pass). A
   // completed cycle resets the cursor to 0. (A cursor of 0 or the initial
   // invalid sentinel means "fresh".)
+  // A cursor left behind by a cycle that FAILED is not a pause: the exception
+  // escaped this graph and was handled above it (try_except_, map_ capture), so
+  // the next cycle must start fresh rather than skip the nodes before it.
   const bool resuming =
-      state.evaluation_cursor != 0 && state.evaluation_cursor != invalid_cursor;
+      !state.evaluation_failed && state.evaluation_cursor != 0 &&
+      state.evaluation_cursor != invalid_cursor;
 
   state.evaluation_time = evaluation_time;
   state.evaluation_failed = false;
